@@ -20,7 +20,8 @@ AST (python tuples/lists; JSON round trip turns tuples into lists, everything be
   own scope object): inside depth d, `s` means slot 6+d; an outer slot 6+d' (d' < d) is reached through the closures
   GS<d'>() / SS<d'>(v) / WS<d'>(v) declared with it.
   spec : (id, is_gen, ret(0 none,1 ok,2 throws,3 non-object), thr(0 none,1 rethrow,2 done,3 continue,4 non-object), [items]);
-         id >= 10 (object kind): the iterator's second next() makes a re-entrant G.next/throw/return (id//10-1);  lbl : None | int
+         10 <= id < 40 (object kind): the iterator's second next() makes a re-entrant G.next/throw/return (id//10-1);
+         id >= 40 (object kind): the iterator's second next() throws "N<id>";  lbl : None | int
 """
 import json, os, itertools, hashlib, time
 from concurrent.futures import ThreadPoolExecutor
@@ -387,7 +388,7 @@ def systematic_bodies():
     for sp in (spec(1, 0, 3, 0), spec(2, 0, 1, 4), spec(3, 0, 3, 4), spec(4, 0, 0, 4)):
         bs.append([TR([G(A(L("sv"), YS(sp)))], (0, [G(V(0)), G(y1)]), [G(L("sf"))]), G(L("sd"))])
         bs.append([TR([O(1, ("t", sp), [("I", ("EQ", y1, L("i7")), [BK()], [])])], (0, [G(V(0))]), None), G(L("sd"))])
-    for kd in (1, 2, 3):
+    for kd in (1, 2, 3, 4):
         sp = spec(10 * kd + 5, 0, 1, 1, ["i1", "i2", "i3"])
         bs.append([TR([G(A(L("sv"), YS(sp)))], (0, [G(V(0)), G(y1)]), [G(L("sf"))]), G(L("sd"))])
         bs.append([TR([O(1, ("t", sp), [G(A(V(1), y1))])], (0, [G(V(0))]), None), G(L("sd"))])
@@ -439,8 +440,8 @@ class Gen:
         ret = 0 if is_gen else self.r.choice([0, 1, 1, 2, 3])
         thr = 0 if is_gen else (self.r.randrange(2) if ret in (2, 3) else self.r.randrange(5))
         id = self.nid
-        if not is_gen and len(items) > 1 and self.r.random() < 0.25:
-            id += 10 * self.r.randrange(1, 4)          # re-entrant call from inside the iterator's second next()
+        if not is_gen and len(items) > 1 and self.r.random() < 0.3:
+            id += 10 * self.r.randrange(1, 5)          # 1..3: re-entrant call from inside the iterator's second next(); 4: it throws
         return spec(id, int(is_gen), ret, thr, items)
 
     def avar(self):
@@ -609,7 +610,7 @@ class Case:
 
 KNOWN_G = "goja:yield-star-reentrant-call-from-inside-the-delegate-is-not-rejected"
 import re
-_RX = re.compile(r"I(\d\d+)x")
+_RX = re.compile(r"I([123]\d)x")
 
 def yield_star_ids(body):
     return set(e[1][0] for s in body for e in stmt_exprs(s) if e[0] == "YS")
@@ -834,7 +835,7 @@ def build_cases(ctx):
     return cases
 
 N_EX_QUICK, N_EX_THOROUGH = 20, 400
-N_THEOREMS = 52
+N_THEOREMS = 59
 
 RULE = ("one evaluation = one (body, driver history) pair run on goja and on the Lean model (plus one per mechanism dump); "
         "distinct & non-trivial = distinct (mode, body, history) whose trace contains at least one suspension followed by a further command")
@@ -850,7 +851,7 @@ def main(ctx):
         # a broken tie does not stop the model driver from building)
         tok, terrs = ctx.lake_build(["GojaModel.C09.Tie"])
         if tok:
-            ctx.audit("GojaModel.C09.Tie", expect_min=7)
+            ctx.audit("GojaModel.C09.Tie", expect_min=8)
     if ctx.tier == "thorough":
         ctx.leanchecker("GojaModel.C09.Props")
     t1 = time.time()
